@@ -458,8 +458,8 @@ func checkPipeCollector(c *Check) {
 	for _, b := range np.Blocks {
 		for _, in := range b.Instrs {
 			if g, ok := in.(*ssa.Go); ok {
-				if mc, ok := g.Call.Value.(*ssa.MakeClosure); ok {
-					body, _ = mc.Fn.(*ssa.Function)
+				if f := spawnedFn(&g.Call); f != nil && inModule(f) && len(f.Blocks) > 0 {
+					body = f
 				}
 			}
 		}
